@@ -24,22 +24,27 @@ What is proved:
 * request accounting: `createReq`'s running `wireLength` is `base + reqAcct` and at most the limit (`createReq_accounting`);
 * **request bound, every version 0–13**, version known to the sink (`request_bound`, `request_bound_any_order`,
   `request_length_le`), with the exact written length for v3–v13 without compressor (`request_length_exact`);
-* request bound while the version is still unknown (`request_bound_version_unknown`), written at any version, for
-  flexible written versions under three side conditions (batches < 2 MiB, names < 32 KiB, < 16383 topics);
+* request bound while the version is still unknown (`request_bound_version_unknown`), written at any version; for
+  flexible written versions under `FlexFit` (every topic fits the estimate `max(2+lt+4, 16+4+1)` of d9ff59f) and
+  fewer than 16383 topics or `FlexSpare`;
 * decode ∘ encode for Produce v3–v13 without compressor (`decode_encode_request`, `decoded_records_are_buffered`).
 
 What is not proved, and why:
  (a) the round trip with a compressor and for message sets (v0–v2): checked on every differential case by the same
      reference decoder evaluated on the implementation's bytes;
- (b) version unknown, flexible written version, batches of 2 MiB or more: the bound is FALSE there — the
-     unknown-version estimate has no room for the growth of the compact partition-array length, which only the
-     per-partition slack of small batches covers. Checked on the real code: `reqlen 13 -1 …` with 2 short-named
-     topics × 127 partitions × one 2 MiB record, a 130-byte transactional id, limit 532697885: accounted 532697885,
-     written 532697886. (Needs `ProducerBatchMaxBytes ≥ 2^21` and a first request of half a gigabyte.)
- (c) the sink's known version differing from the written one (a transactional producer losing KIP-890 part 2, or
-     a topic without id capping a v13 sink to v12): outside the model's assumption; the real code under-accounts
-     there (18 bytes per topic accounted, a name of 16+ bytes written); see the report.
- (d) a batch buffered at a known version ≥ 3 and written as a message set: never size-checked as a message set. -/
+ (b) version unknown, v9–v12 written, a topic whose name and partition count need more than 5 bytes of compact
+     lengths (with legal names: 2^21-1 or more partitions of one 127+-byte-named topic in the first request): the
+     estimate `2+lt+4` is then one byte short per such topic. Not run on the real code: two such topics (the base
+     length has one to three bytes of slack) need 4.2 million partition buffers. The former corner (127+ partitions
+     of 2 MiB batches under a short name, v13: accounted 532697885, written 532697886) is repaired by d9ff59f and is
+     a regression case of the thorough tier (`reqlen`).
+ (c) the sink's known version differing from the written one (a transactional producer whose KIP-890-part-2 flag
+     changes after the first response, or a v13 sink that later meets a topic without id, which caps the request at
+     v12): outside the model's assumption `sink version ∈ {-1, written version}`; the real code under-accounts there
+     (18 bytes per topic accounted, a name of 16+ bytes written). Listed finding
+     `request-over-limit-when-written-version-differs-from-sink-version`, replay `corpus/C18/003…`.
+ (d) a batch buffered at a known version ≥ 3 and written as a message set is never size-checked as a message set.
+     Listed finding `batch-over-max-when-written-version-differs-from-sink-version`, same corpus file. -/
 namespace Props.C18
 open Model.C18 Proof.C18
 open Spec.C17 (lenU zz)
@@ -204,20 +209,32 @@ theorem request_length_exact (e : Env) (c : Cfg) (v corr pid ep : Int) (ts : Lis
     omega
 
 /-- **Request bound while the sink does not know the produce version yet** (`produceVersion = -1`, the first
-request to a broker), written at any version 0–13. For a non-flexible written version no further condition. For
-a flexible one (9–13) the proof needs: every batch below 2 MiB (compact length prefix of at most 3 bytes — true
-whenever `ProducerBatchMaxBytes < 2^21`, the default is 1000012), topic names below 32 KiB, fewer than 16383
-topics in the request. Outside these (e.g. 127+ partitions of a short-named topic, every batch ≥ 2 MiB, v13) the
-accounting can be short by one byte per such topic: the unknown-version estimate has no room for the growth of the
-compact partition-array length, which the per-partition slack of small batches otherwise covers. -/
+request to a broker), written at any version 0–13, any compressor. For a non-flexible written version there is no
+further condition. For a flexible one (9–13): the transactional id is at most 16382 bytes (config validation);
+every topic fits its estimate `max(2+lt+4, 16+4+1)` (`FlexFit`: at v13, the compact partition count takes at most
+4 bytes, i.e. fewer than 2^28-1 partitions of the topic in the request, which `BrokerMaxWriteBytes ≤ 2^30` makes
+unavoidable; at v9–v12, the compact lengths of the topic name and of the partition count take at most 5 bytes
+together — e.g. a name below 16383 bytes and fewer than 2^21-1 partitions, or a name of at most 126 bytes and
+fewer than 2^28-1 partitions); and the request holds fewer than 16383 topics, or every topic fits with a byte to
+spare (`FlexSpare`). With legal Kafka topic names (≤ 249 bytes) the only excluded requests are v9–v12 requests
+with 2^21-1 or more partitions of one 127+-byte-named topic — at least 150 MB of a single topic's batches in the
+first request to a broker. -/
 theorem request_bound_version_unknown (e : Env) (c : Cfg) (v : Int) (start : Nat) (rbs : List RecBuf) (corr pid ep : Int)
     (h0 : 0 ≤ v) (hr : ∀ rb ∈ rbs, RbInv rb) (hne : (createReq c (-1) start rbs).1.batches ≠ [])
-    (hs : v ≥ 9 → SmallT (createReq c (-1) start rbs).1.batches ∧ blen c.txnId ≤ 16382
-      ∧ (createReq c (-1) start rbs).1.batches.length < 16383) :
+    (hs : v ≥ 9 → blen c.txnId ≤ 16382 ∧ FlexFit v (createReq c (-1) start rbs).1.batches
+      ∧ ((createReq c (-1) start rbs).1.batches.length < 16383 ∨ FlexSpare v (createReq c (-1) start rbs).1.batches)) :
     ((appendRequest e c v corr pid ep (createReq c (-1) start rbs).1.batches).length : Int) ≤ c.maxBrokerWriteBytes := by
   have ha := createReq_accounting c (-1) start rbs
   have hl := appendRequest_le_unknown e c v corr pid ep _ h0 (createReq_topicsInv c (-1) start rbs hr) hs
   have := ha.2 hne
+  omega
+
+/-- the side conditions of `request_bound_version_unknown` are met by ordinary requests: at v13 any topic with at
+most 2^21-2 partitions in the request has a byte to spare -/
+example (t : TopicBatches) (h : t.parts.length < 2097151) : 1 ≤ flexSlack 13 t := by
+  have := Proof.C17.lenU_le 3 (1 + t.parts.length) (by omega) (by omega)
+  have hu := uvarlen_eq t.parts.length
+  simp only [flexSlack, show (13 : Int) ≥ 13 from by omega, if_true, uvarintLen] at hu ⊢
   omega
 
 /-- A message set (Produce v0–v2) is at most the length `tryAddBatch` accounts for it, with any compressor. -/
